@@ -132,8 +132,8 @@ func New(config ...Config) fiber.Handler {
 		// Get timestamp
 		ts := atomic.LoadUint64(&timestamp)
 
-		// Cache Entry found
-		if e != nil {
+		// Cache Entry found (an external storage hands out a blank entry for an unknown key)
+		if e != nil && e.exp != 0 {
 			// Invalidate cache if requested
 			if cfg.CacheInvalidator != nil && cfg.CacheInvalidator(c) {
 				e.exp = ts - 1
